@@ -199,6 +199,8 @@ class World:
         return self._manager
 
     def close(self):
+        if getattr(self, '_history', None) is not None:
+            self.loop.run_until_complete(self._history['db'].close())
         if getattr(self, '_manager', None) is not None:
             self.loop.run_until_complete(self._manager.ledger.db.close())
         self.loop.close()
@@ -1035,22 +1037,51 @@ def cache_scenario(seed):
     if rng.random() < 0.5:
         chain = link_headers(chain, [new_root() for _ in range(rng.randrange(1, 3))], 4)
         steps += [('grow', list(chain)), ('sync',), ('request', list(watched))]
+    # an already persisted file, then a reorganisation that does NOT change the chain length (the last k headers
+    # replaced by siblings, delivered the way Ledger.receive_header delivers a header notification), cached
+    # requests in that session, shutdown, restart, and both proofs again
+    if rng.random() < 0.8:
+        steps.append(('restart',))
+        k = rng.choice([1, 1, 1, 2, 3])
+        k = min(k, len(chain) - 2)
+        old_tip = watch(chain, len(chain) - rng.randrange(1, k + 1), keep=False)
+        steps.append(('request', [old_tip] + rng.sample(watched, 1)))
+        chain = link_headers(chain[:len(chain) - k], [new_root() for _ in range(k)], 5)
+        new_tip = watch(chain, old_tip[1], keep=False)
+        steps.append(('replace', list(chain), k))
+        if rng.random() < 0.7:
+            steps.append(('request', [old_tip, new_tip] + rng.sample(watched, 1)))
+        steps += [('restart',), ('request', [old_tip, new_tip] + rng.sample(watched, 1))]
+        if rng.random() < 0.4:
+            chain = link_headers(chain, [new_root()], 6)
+            steps += [('grow', list(chain)), ('sync',), ('restart',), ('request', [new_tip, old_tip])]
     # one txid at most once per request
-    steps = [(st[0], list(dict.fromkeys(st[1]))) if st[0] == 'request' else st for st in steps]
+    steps = [(st[0], list(dict.fromkeys(st[1]))) + tuple(st[2:]) if st[0] == 'request' else st for st in steps]
     return steps, answers
 
 
 def cache_case(run, world, model, case):
     steps, answers = cache_scenario(case['scenario_seed'])
     loop = world.loop
+    import tempfile
+    import shutil
     net = SyncNetwork()
     net.answers = answers
-    db = Database(':memory:')
-    hd = Hd(':memory:')
-    loop.run_until_complete(hd.open())          # before the Ledger exists: Ledger.__init__ installs mainnet checkpoints
-    ledger = Ledger({'db': db, 'headers': hd, 'network': net})
-    hd.checkpoints = {}
-    loop.run_until_complete(db.open())
+    tmp = tempfile.mkdtemp(prefix='c08_')
+    box = {}
+
+    def start_wallet():
+        """a new process: the header FILE is opened again, a new Ledger (empty tx cache) and database"""
+        hd_ = Hd(os.path.join(tmp, 'headers'))
+        loop.run_until_complete(hd_.open())      # before the Ledger exists: Ledger.__init__ installs mainnet checkpoints
+        db_ = Database(':memory:')
+        box['ledger'] = Ledger({'db': db_, 'headers': hd_, 'network': net})
+        hd_.checkpoints = {}
+        loop.run_until_complete(db_.open())
+        box['db'] = db_
+    start_wallet()
+    ledger = box['ledger']
+    store_diverged = None
     run.case(case, nontrivial=True)
     run.count('kind:cache')
     wallet = []                     # the chain the wallet holds according to the harness's own bookkeeping
@@ -1060,6 +1091,31 @@ def cache_case(run, world, model, case):
         for si, st in enumerate(steps):
             if st[0] in ('init', 'grow', 'switch'):
                 net.chain = st[1]
+            elif st[0] == 'restart':
+                loop.run_until_complete(ledger.headers.close())          # what Ledger.stop does
+                loop.run_until_complete(box['db'].close())
+                start_wallet()
+                ledger = box['ledger']
+                mops.append({'op': 'restart'})
+                mexpect.append(None)
+                run.count('cache:restart')
+                stored = [ledger.headers._read(i) for i in range(len(ledger.headers))]
+                if stored != wallet and store_diverged is None:
+                    store_diverged = si       # judged by the monitor on the following requests first
+            elif st[0] == 'replace':
+                new, k = st[1], st[2]
+                net.chain = new
+                fork = len(wallet) - k
+                loop.run_until_complete(ledger.update_headers(
+                    height=fork, headers=binascii.hexlify(b''.join(new[fork:])).decode(), subscription_update=True))
+                mops.append({'op': 'replace', 'fork': fork, 'headers': [x.hex() for x in new[fork:]]})
+                mexpect.append(None)
+                run.count('cache:equal-length-replacement')
+                wallet = list(new)
+                stored = [ledger.headers._read(i) for i in range(len(ledger.headers))]
+                if stored != wallet:
+                    run.disagreement('C08.cache: header list after a header notification', dict(case, step=si), len(stored), len(wallet))
+                    return
             elif st[0] == 'sync':
                 loop.run_until_complete(ledger.update_headers())
                 new = net.chain
@@ -1107,12 +1163,13 @@ def cache_case(run, world, model, case):
                         run.violation(dict(case, step=si, txid=txid),
                                       f'{"cached " if hit else ""}transaction returned VERIFIED at height {tx.height}, but its '
                                       f'proof does not lead to the Merkle root of the header the wallet now holds at that '
-                                      f'height ({len(wallet)} headers)', signature=sig)
+                                      f'height ({len(wallet)} headers{"; the header file read back after the restart is not the chain validated before the shutdown" if store_diverged is not None else ""})', signature=sig)
                         return
                     if folds(h) and not (tx.is_verified and tx.height == h):
                         run.violation(dict(case, step=si, txid=txid),
                                       f'genuine proof for height {h} (header present, {len(wallet)} headers) not accepted: '
-                                      f'{"served from the cache " if hit else ""}verified={tx.is_verified} at height {tx.height}',
+                                      f'{"served from the cache " if hit else ""}verified={tx.is_verified} at height {tx.height}'
+                                      f'{"; the header file read back after the restart is not the chain validated before the shutdown" if store_diverged is not None else ""}',
                                       signature=sig)
                         return
                     if hit:
@@ -1122,16 +1179,303 @@ def cache_case(run, world, model, case):
                                  'net': {}})
                     mexpect.append({'hit': hit, 'height': tx.height, 'position': tx.position, 'verified': tx.is_verified,
                                     'outcome': 'tx'})
+        if store_diverged is not None:
+            run.disagreement('C08.cache: header file after close/reopen is not the chain held before the shutdown',
+                             dict(case, step=store_diverged), 'differs', 'equal')
+            return
         mod = model.call('cache_run', headers=[], ops=mops)
-        run.compare('C08.cache (request_transactions + update_headers) vs Model/C08_Cache.v', case,
+        run.compare('C08.cache (request_transactions + update_headers + restart) vs Model/C08_Cache.v', case,
                     {'len': len(wallet), 'results': mexpect}, mod)
     finally:
-        loop.run_until_complete(db.close())
+        try:
+            loop.run_until_complete(box['db'].close())
+        finally:
+            shutil.rmtree(tmp, ignore_errors=True)
+
+
+# ------------------------------------------------------------------------------------------------
+# checkpointed chunks fetched on demand: Headers.get -> ensure_chunk_at -> fetch_chunk with a lying getter
+# ------------------------------------------------------------------------------------------------
+class CkHd(Headers):
+    genesis_hash = None
+    validate_difficulty = False
+    checkpoints = {}
+
+
+def chunk_scenario(seed):
+    """m checkpointed chunks, all missing at start; per chunk the real 1000 headers (what the checkpoint commits
+    to) and a forged chunk; a script of attempts (which answer the server gives, which transaction/proof, height)"""
+    rng = random.Random(f'chunk:{seed}')
+    m = rng.choice([1, 1, 2])
+    variants, cps, blocks = [], [], {}
+
+    def block():
+        n = rng.choice([1, 2, 3, 5])
+        raws = make_block(n, rng.randrange(10 ** 9))
+        levels = ref_levels([H(r) for r in raws])
+        return raws, levels
+
+    def chunk_with(root, off):
+        hs = [rng.randbytes(112) for _ in range(1000)]
+        hs[off] = hs[off][:36] + root + hs[off][68:]
+        return hs
+    spots = []
+    for k in range(m):
+        off = rng.choice([1, 7, 999, rng.randrange(1, 1000)]) if k == 0 else rng.choice([0, 999, rng.randrange(0, 1000)])
+        real_b, fake_b = block(), block()
+        real = chunk_with(real_b[1][-1][0], off)
+        fake = chunk_with(fake_b[1][-1][0], off)
+        cps.append(H(b''.join(real)))
+        variants += [real, fake]                     # index 2k = honest answer, 2k+1 = forged chunk
+        spots.append((1000 * k + off, real_b, fake_b))
+    if rng.random() < 0.4:                           # a forged answer that shares all but the special header
+        k = rng.randrange(m)
+        h, _, fake_b = spots[k]
+        near = list(variants[2 * k])
+        near[h - 1000 * k] = variants[2 * k + 1][h - 1000 * k]
+        variants.append(near)
+        near_of = {k: len(variants) - 1}
+    else:
+        near_of = {}
+
+    def att(k, server, which):
+        h, real_b, fake_b = spots[k]
+        raws, levels = real_b if which == 'genuine' else fake_b
+        idx = rng.randrange(len(raws))
+        return {'chunk': k, 'server': server, 'which': which, 'height': h, 'raw': raws[idx].hex(),
+                'arg': {'block_height': h, 'merkle': text_elems(ref_branch(levels, idx)), 'pos': idx}}
+    script = []
+    for k in range(m):
+        lie = near_of.get(k, 2 * k + 1)
+        script += [att(k, lie, 'forged') for _ in range(rng.randrange(2, 4))]       # first attempt and the RETRIES
+        if rng.random() < 0.5:
+            script.append(att(k, 2 * k + 1, 'genuine'))                             # genuine proof, lying server
+        script.append(att(k, 2 * k, rng.choice(['genuine', 'forged'])))             # honest server at last
+        script += [att(k, lie, 'forged'), att(k, lie, 'genuine')]                   # chunk present: getter not asked
+    if m == 2 and rng.random() < 0.5:
+        rng.shuffle(script)
+    return m, cps, variants, script
+
+
+def chunk_case(run, world, model, case):
+    import base64
+    import zlib
+    m, cps, variants, script = chunk_scenario(case['scenario_seed'])
+    loop = world.loop
+    run.case(case, nontrivial=True)
+    run.count('kind:chunk')
+    sig = {'kind': 'chunk', 'scenario_seed': case['scenario_seed']}
+    hd = CkHd(':memory:')
+    ledger = Ledger({'db': Database(':memory:'), 'headers': hd})
+    hd.checkpoints = {1000 * k: binascii.hexlify(cp[::-1]).decode() for k, cp in enumerate(cps)}   # after Ledger.__init__
+    loop.run_until_complete(hd.open())
+    if len(hd) != 1000 * m or hd.known_missing_checkpointed_chunks != {1000 * k for k in range(m)}:
+        run.disagreement('C08.chunk setup', case, [len(hd), sorted(hd.known_missing_checkpointed_chunks)], [1000 * m])
+        return
+    state = {'serve': 0, 'asked': 0}
+
+    async def getter(start):
+        state['asked'] += 1
+        raw = b''.join(variants[state['serve']])
+        z = zlib.compressobj(wbits=-15)
+        return {'base64': base64.b64encode(z.compress(raw) + z.flush()).decode(), 'count': len(raw) // 112}
+    hd.chunk_getter = getter
+    ledger.network = FakeNetwork({})
+    observed = []
+    for i, a in enumerate(script):
+        state['serve'], before = a['server'], state['asked']
+        raw = bytes.fromhex(a['raw'])
+        tx = Transaction(raw)
+        try:
+            ret = loop.run_until_complete(ledger.maybe_verify_transaction(tx, a['height'], decode_arg(a['arg'])))
+            outcome = 'tx' if ret is tx else 'none' if ret is None else 'other'
+        except Exception as e:
+            outcome = 'CheckpointMismatch' if str(e).startswith('Checkpoint mismatch') else type(e).__name__
+        run.count('chunk:attempt:' + outcome + (':verified' if tx.is_verified else ''))
+        k, h = a['chunk'], a['height']
+        committed = variants[2 * k][h - 1000 * k]          # the header the built-in checkpoint commits to
+        br = [bytes.fromhex(e['s'])[::-1] for e in a['arg']['merkle']]
+        folds = ref_check(br, a['arg']['pos'], H(raw), committed[36:68])
+        where = dict(case, attempt=i, height=h, served=('honest' if a['server'] == 2 * k else 'forged'), proof=a['which'])
+        if tx.is_verified and not folds:
+            run.violation(where, f'attempt {i + 1}: verified at height {h} against a header of a chunk that does not hash to '
+                                 f'the built-in checkpoint (the server\'s chunk failed the checkpoint'
+                                 f'{" on an earlier attempt" if state["asked"] == before else ""}); the wallet has no '
+                                 f'validated header for that height', signature=sig)
+            return
+        present_now = 1000 * k not in hd.known_missing_checkpointed_chunks
+        if folds and (a['server'] == 2 * k or (present_now and state['asked'] == before)) and not tx.is_verified:
+            run.violation(where, f'attempt {i + 1}: genuine proof to the checkpointed header {h} not accepted '
+                                 f'(outcome {outcome})', signature=sig)
+            return
+        observed.append({'height': tx.height, 'position': tx.position, 'verified': tx.is_verified, 'outcome': outcome,
+                         'asked': state['asked'] > before})
+    present = sorted(k for k in range(m) if 1000 * k not in hd.known_missing_checkpointed_chunks)
+    mod = model.call('chunk_run', csize=1000, checkpoints=[c.hex() for c in cps],
+                     chunks=[[x.hex() for x in v] for v in variants],
+                     attempts=[{'server': a['server'], 'raw': a['raw'], 'height': a['height'], 'arg': model_resp(a['arg']),
+                                'net': {}} for a in script])
+    mod['present'] = sorted(mod['present'])
+    run.compare('C08.chunk (fetch_chunk on demand) vs Model/C08_Chunk.v', case, {'present': present, 'results': observed}, mod)
+
+
+# ------------------------------------------------------------------------------------------------
+# the persisted verdict: Ledger.update_history against a fake server, rows read back from the database
+# ------------------------------------------------------------------------------------------------
+class HistoryNetwork:
+    is_connected = True
+    client = None
+
+    def __init__(self):
+        self.history = {}          # address -> [(txid, height)]
+        self.replies = {}          # txid -> (raw hex, merkle dict)
+        from lbry.wallet.stream import StreamController
+        self.on_header = StreamController().stream
+        self.on_status = StreamController().stream
+
+    def retriable_call(self, function, *args, **kwargs):
+        return function(*args, **kwargs)
+
+    async def subscribe_address(self, *addresses):
+        return [None] * len(addresses)
+
+    async def get_history(self, address):
+        return [{'tx_hash': t, 'height': h} for t, h in self.history.get(address, [])]
+
+    async def get_transaction_batch(self, txids, restricted=True):
+        return {txid: self.replies[txid] for txid in txids}
+
+    async def get_merkle(self, txid, height):
+        return self.replies[txid][1]
+
+
+def history_world(world):
+    """one wallet (account, opened database) for the whole stream; each script gets its own address and headers"""
+    hw = getattr(world, '_history', None)
+    if hw is None:
+        net = HistoryNetwork()
+        db = Database(':memory:')
+        ledger = Ledger({'db': db, 'headers': Hd(':memory:'), 'network': net})
+        world.loop.run_until_complete(db.open())
+        account = Account.from_dict(ledger, Wallet(), {'seed': 'carbon smart garage balance margin twelve chest sword '
+                                                               'toast envelope bottom stomach absent'})
+        ledger.accounts.append(account)
+        world.loop.run_until_complete(account.ensure_address_gap())
+        addresses = world.loop.run_until_complete(account.receiving.get_addresses())
+        hw = world._history = {'net': net, 'db': db, 'ledger': ledger, 'addresses': addresses, 'used': 0}
+    return hw
+
+
+def make_tx_to(rng, pkh):
+    raw = make_tx(rng)
+    return raw[:166] + pkh + raw[186:]          # the 20-byte hash of the pay-to-pubkey-hash output
+
+
+def history_scenario(seed):
+    rng = random.Random(f'history:{seed}')
+    size = rng.randrange(4, 9)
+    return rng, size
+
+
+def history_case(run, world, model, case):
+    import hashlib as _h
+    hw = history_world(world)
+    loop, net, ledger, db = world.loop, hw['net'], hw['ledger'], hw['db']
+    rng = random.Random(f'history:{case["scenario_seed"]}')
+    address = hw['addresses'][hw['used'] % len(hw['addresses'])]
+    hw['used'] += 1
+    pkh = ledger.address_to_hash160(address)
+    run.case(case, nontrivial=True)
+    run.count('kind:history')
+    sig = {'kind': 'history', 'scenario_seed': case['scenario_seed']}
+    # two blocks that contain transactions paying the wallet, at heights a and b of a chain of `size` headers
+    size = rng.randrange(4, 9)
+    a, b = rng.sample(range(1, size), 2)
+    blocks = {}
+    for hgt in (a, b):
+        n = rng.choice([1, 2, 3, 4, 6])
+        raws = [make_tx_to(rng, pkh) if i == 0 or rng.random() < 0.3 else make_tx(rng) for i in range(n)]
+        rng.shuffle(raws)
+        blocks[hgt] = (raws, ref_levels([H(r) for r in raws]))
+    roots = [blocks[i][1][-1][0] if i in blocks else rng.randbytes(32) for i in range(size)]
+    cached, hraws = world.ledger_for(roots)
+    ledger.headers = cached.headers
+    mine = [(hgt, i) for hgt in (a, b) for i, r in enumerate(blocks[hgt][0]) if r[166:186] == pkh]
+    t_h, t_i = mine[0]
+    traws, tlevels = blocks[t_h]
+    T = traws[t_i]
+    txid = wire(H(T))
+    genuine = {'merkle': [wire(x) for x in ref_branch(tlevels, t_i)], 'pos': t_i}
+    other_inrange = [x for x in range(1, size) if x != t_h]
+    # the server's successive claims about where T is confirmed (height, dict)
+    plan = [(t_h, dict(genuine, block_height=t_h))]
+    for _ in range(rng.randrange(1, 4)):
+        kind = rng.choice(['beyond', 'other-height', 'mempool', 'wrong-branch', 'back'])
+        if kind == 'beyond':
+            hh = rng.choice([size, size + 1, size + 50])
+            plan.append((hh, dict(genuine, block_height=hh)))
+        elif kind == 'other-height':
+            hh = rng.choice(other_inrange)
+            plan.append((hh, dict(genuine, block_height=hh)))
+        elif kind == 'mempool':
+            hh = rng.choice([0, -1])
+            plan.append((hh, {'block_height': hh}))
+        elif kind == 'wrong-branch':
+            hh = rng.choice(other_inrange + [t_h])
+            bad = dict(genuine, block_height=hh)
+            bad['merkle'] = [wire(rng.randbytes(32)) for _ in genuine['merkle']] or [wire(rng.randbytes(32))]
+            plan.append((hh, bad))
+        else:
+            plan.append((t_h, dict(genuine, block_height=t_h)))
+    plan = [p for i, p in enumerate(plan) if i == 0 or p[0] != plan[i - 1][0]]      # the history must change to be re-synced
+    base_history = list(net.history.get(address, []))
+    mops = []
+    for step, (hh, merkle) in enumerate(plan):
+        net.replies[txid] = (T.hex(), merkle)
+        history = base_history + [(txid, hh)]
+        net.history[address] = history
+        status = _h.sha256(''.join(f'{t}:{x}:' for t, x in history).encode()).hexdigest()
+        try:
+            loop.run_until_complete(ledger.update_history(address, status))
+        except Exception as e:
+            run.disagreement('C08.history: update_history raised', dict(case, step=step), type(e).__name__, None)
+            return
+        row = loop.run_until_complete(db.get_transaction(txid=txid))
+        where = dict(case, step=step, plan=[[x, m] for x, m in plan[:step + 1]], txid=txid)
+        if row is None:
+            run.violation(where, 'synced transaction has no row in the database', signature=sig)
+            return
+        run.count('history:sync')
+        folds = 'merkle' in merkle and 0 < hh < size and ref_check(
+            [bytes.fromhex(x)[::-1] for x in merkle['merkle']], merkle['pos'], H(row.raw), roots[hh])
+        if row.is_verified and not (row.height == hh and folds):
+            run.violation(where, f'database row says (height {row.height}, verified) after the server reported height {hh}: '
+                                 + ('the wallet has no header for that height' if not 0 < row.height < size else
+                                    'the proof does not lead to the Merkle root of the header at that height')
+                                 + f' ({size} headers; earlier verdicts: {[x for x, _ in plan[:step]]})', signature=sig)
+            return
+        if row.height != hh:
+            run.violation(where, f'database row keeps height {row.height}, the server reported {hh}', signature=sig)
+            return
+        if folds and not row.is_verified:
+            run.violation(where, f'genuine proof at height {hh} synced, but the database row is not verified', signature=sig)
+            return
+        mops.append({'op': 'sync', 'key': txid, 'raw': T.hex(), 'height': hh,
+                     'arg': {k: ([x.encode().hex() for x in v] if k == 'merkle' else v) for k, v in merkle.items()
+                             if k in ('merkle', 'pos')}, 'net': {}})
+        mod = model.call('db_run', headers=[x.hex() for x in hraws], ops=mops)
+        got = [[txid, row.height, row.position, bool(row.is_verified)]]
+        run.compare('C08.history: database row vs Model/C08_Db.v', where, got, mod['rows'])
+    net.history[address] = base_history + [(txid, plan[-1][0])]
 
 
 def dispatch_case(run, world, model, case):
     kind = case.get('kind', '')
-    if kind == 'cache':
+    if kind == 'history':
+        history_case(run, world, model, case)
+    elif kind == 'chunk':
+        chunk_case(run, world, model, case)
+    elif kind == 'cache':
         cache_case(run, world, model, case)
     elif kind.startswith('restart:'):
         restart_case(run, world, model, case)
@@ -1580,7 +1924,13 @@ def main(run):
         'altered, key and proof genuine); header stores built by the real VALIDATING Headers.connect (easy max_target, '
         'proof of work, bits, links) from a valid base plus one message [valid*k, invalid(prev|bits|pow), ...] with k '
         'mostly in the first half, proofs offered at the prefix, the invalid header and behind it; restart: a validated header FILE gets one header\'s merkle root replaced by a forged block\'s root plus a '
-        'half-written tail, is re-opened (repair) and the forged proof offered; cache scripts: server chain / wallet sync '
+        'half-written tail, is re-opened (repair) and the forged proof offered; history scripts: the real Ledger.update_history for a transaction paying the wallet, the server reporting it '
+        'first at its true height with the genuine proof and then at a height without header / another in-range height / '
+        'in the mempool / with a wrong branch / back, the row read back through Database.get_transaction after every '
+        'sync and compared with Model/C08_Db.v; cache scripts also restart the wallet on a real header FILE around an '
+        'equal-length replacement delivered like a header notification; chunk scripts: 1-2 custom checkpoints with every chunk missing, a chunk getter that serves a forged chunk (whole, '
+        'or differing in one header) or the honest one, 2-3 attempts with the forged proof (the retries), honest answer, '
+        'further attempts, compared with Model/C08_Chunk.v; cache scripts: server chain / wallet sync '
         '(real update_headers) / request_transactions(cached=True) with a transaction above the wallet tip and a '
         'reorganisation whose lowest replaced height is mostly the height of a cached verified transaction, compared '
         'with the state machine Model/C08_Cache.v; WalletManager.get_transaction (second call site) incl. block_height <= 0. get_root_of_merkle_tree directly under SHA-256d and under a weak hash; explicit collisions from the model; '
@@ -1618,6 +1968,10 @@ def main(run):
         for _ in range(vlib.scaled(run.tier, 60, 1500)):
             for case in restart_cases(rng, thorough):
                 restart_case(run, world, model, case)
+        for _ in range(vlib.scaled(run.tier, 60, 1500)):
+            history_case(run, world, model, {'kind': 'history', 'scenario_seed': rng.randrange(10 ** 9)})
+        for _ in range(vlib.scaled(run.tier, 30, 600)):
+            chunk_case(run, world, model, {'kind': 'chunk', 'scenario_seed': rng.randrange(10 ** 9)})
         for _ in range(vlib.scaled(run.tier, 120, 3000)):
             cache_case(run, world, model, {'kind': 'cache', 'scenario_seed': rng.randrange(10 ** 9)})
         for case in malformed_cases(rng, vlib.scaled(run.tier, 1500, 30000)):
@@ -1656,7 +2010,7 @@ def replay(run, case):
     try:
         if 'traceback' in case:
             run.disagreement('harness-crash', case, None, None)
-        elif case.get('kind', '').startswith(('show:', 'batch:', 'connect:', 'restart:', 'cache')):
+        elif case.get('kind', '').startswith(('show:', 'batch:', 'connect:', 'restart:', 'cache', 'chunk', 'history')):
             dispatch_case(run, world, model, case)
         elif case.get('kind', '').startswith(('tree', 'static-fold', 'collision-demo', 'legacy', 'batch')):
             run.notes.append('replay of tree/static/legacy cases: rerun the tier with the same VERIF_SEED')
